@@ -40,7 +40,7 @@ with lenv :=
 | ENil
 | ECons (x : N) (v : lval) (rest : lenv).
 
-Record lstate := LState { calls : nat; depth : nat }.
+Record lstate := LState { calls : N; depth : nat }.
 
 Inductive lres := LRet (v : lval) | LNoFuel.
 
@@ -50,10 +50,11 @@ Fixpoint lookup (env : lenv) (x : N) : option lval :=
   | ECons y v r => if N.eqb x y then Some v else lookup r x
   end.
 
-(* the child scope: the arguments by name, over the scope the function was created in *)
+(* the child scope: argsMap[x.Args[i]] = args[i] for i = 0, 1, ... (a repeated name keeps the LAST argument), over
+   the scope the function was created in *)
 Fixpoint bind (ps : list N) (vs : list lval) (env : lenv) : lenv :=
   match ps, vs with
-  | p :: ps', v :: vs' => ECons p v (bind ps' vs' env)
+  | p :: ps', v :: vs' => bind ps' vs' (ECons p v env)
   | _, _ => env
   end.
 
@@ -62,10 +63,13 @@ Definition is_lerr (v : lval) : bool := match v with LVErr => true | _ => false 
 Definition over (limit : option nat) (n : nat) : bool :=
   match limit with Some l => Nat.leb l n | None => false end.
 
+Definition over_calls (limit : option N) (n : N) : bool :=
+  match limit with Some l => N.leb l n | None => false end.
+
 Section Limits.
 
 Variable max_depth : option nat.        (* maxAnonFunctionDepth *)
-Variable max_calls : option nat.        (* maxAnonFunctionCalls *)
+Variable max_calls : option N.          (* maxAnonFunctionCalls *)
 
 Fixpoint leval (fuel : nat) (st : lstate) (env : lenv) (e : lexpr) : lres * lstate :=
   match fuel with
@@ -95,9 +99,9 @@ Fixpoint leval (fuel : nat) (st : lstate) (env : lenv) (e : lexpr) : lres * lsta
                 | (Some vs, st2) =>
                     if negb (Nat.eqb (length vs) (length ps)) then (LRet LVErr, st2)           (* NumArgsCheck *)
                     else if over max_depth (depth st2) then (LRet LVErr, st2)
-                    else if over max_calls (calls st2) then (LRet LVErr, st2)
+                    else if over_calls max_calls (calls st2) then (LRet LVErr, st2)
                     else
-                      match leval fuel' (LState (S (calls st2)) (S (depth st2))) (bind ps vs cenv) body with
+                      match leval fuel' (LState (N.succ (calls st2)) (S (depth st2))) (bind ps vs cenv) body with
                       | (r, st3) => (r, LState (calls st3) (depth st2))                          (* defer anonDepth-- *)
                       end
                 | (None, st2) => (LNoFuel, st2)
@@ -130,7 +134,7 @@ End Limits.
 
 (* the limits of the repaired code *)
 Definition max_anon_function_depth : nat := 100.
-Definition max_anon_function_calls : nat := 100000.
+Definition max_anon_function_calls : N := 100000%N.
 
 Definition leval_limited := leval (Some max_anon_function_depth) (Some max_anon_function_calls).
 Definition leval_unlimited := leval None None.
